@@ -885,8 +885,18 @@ func main() {
 		// distinct names under one address (beyond any small-size shortcut),
 		// then every earlier element added again in another letter case.
 		maxChain := runlib.Pick(c, 12, 20)
+		chains := []int{}
 		for k := 1; k <= maxChain; k++ {
+			chains = append(chains, k)
+		}
+
+		chains = append(chains, 31, 32, 33, 34, 63, 64, 65, 66, 129)
+		for _, k := range chains {
 			for again := 0; again < k; again++ {
+				if k > maxChain && again > 1 && again < k-2 && again != k/2 {
+					continue
+				}
+
 				for _, byName := range []bool{false, true} {
 					if !sh.Mine() {
 						continue
